@@ -234,9 +234,9 @@ def extract(repo):
     lbody = re.sub(r"\s+", "", lm.group(1))
     if lbody == "skipBuf+=c;" and not lm.group(2):
         cri_semicolon = False
-    elif lbody == "if(c=='\\''){inString=!inString;}elseif(c==';'&&!inString){in.putback(c);endOfRecord=true;break;}skipBuf+=c;" and lm.group(2) \
-            and re.search(r"bool\s+inString\s*=\s*false\s*,\s*endOfRecord\s*=\s*false\s*;", cri):
-        cri_semicolon = True
+    elif lbody == "if(c==';'){in.putback(c);endOfRecord=true;break;}skipBuf+=c;" and lm.group(2) \
+            and re.search(r"bool\s+endOfRecord\s*=\s*false\s*;", cri) and "inString" not in cri:
+        cri_semicolon = True       # the first `;`, quoted or not (fixes/C05-15 as corrected by C05-19)
     else:
         raise ValueError(f"CheckRemainingInput: unknown recovery loop body: {lbody[:160]!r}")
     if all(re.search(p, cri) for p in bare) and "IsDelimiter" not in cri:
